@@ -41,6 +41,7 @@ class Job:
     budget_s: float = 600.0
     path_timeout_s: float = 10.0
     expect_paths: int | None = None  # self-test: exact number of paths expected
+    cubes_fn: Callable | None = None  # alternative to cube_vars: () -> list of opaque cubes (ctx.cube)
     required: bool = True  # False: budgeted family, may end non-exhaustive
 
 
@@ -94,6 +95,8 @@ def _w_cubes(args):
     import z3
 
     job, formula, cube_vars, aux = _get_job(pid, tier, jidx)
+    if getattr(job, "cubes_fn", None) is not None:
+        return job.cubes_fn()
     if not cube_vars:
         return [[]]
     return all_cubes(formula if formula is not None else z3.BoolVal(True), cube_vars)
@@ -114,7 +117,10 @@ def _w_explore(args):
     pre = []
     if formula is not None:
         pre.append(formula)
-    pre += [v == c for v, c in zip(cube_vars, cube)]
+    if getattr(job, "cubes_fn", None) is not None:
+        ctx.cube = cube
+    else:
+        pre += [v == c for v, c in zip(cube_vars, cube)]
     pre_f = z3.And(pre) if pre else None
 
     def h(E):
@@ -124,7 +130,9 @@ def _w_explore(args):
 
     def on_timeout(E):
         ctx.extra["path_timeouts"] += 1
-        tm = getattr(job, "on_timeout", None)
+        cur = getattr(ctx, "current", None)
+        if cur is not None:
+            ctx.fail("timeout", "non-termination", cur, "path exceeded the wall-clock budget twice (1x and 10x)")
 
     err = None
     exhausted = False
